@@ -1,5 +1,5 @@
 (* Model of tower-resilience-timelimiter (src/lib.rs, TimeLimiter::call) at poll
-   granularity.  Executable; no proofs here.  Time unit: milliseconds.
+   granularity.  Executable; no proofs here.  Time unit: the script's (millisecond or microsecond).
 
    What the code does (read from lib.rs:169-281):
    * call(): clones the inner service, reads the timeout for this request
@@ -18,7 +18,13 @@
                          and after the deadline).  `result.ok()` maps a closed channel (the task
                          panicked) to None, i.e. to the Timeout error.
    * later polls: the same timeout / select! is polled again.
-   The spawned task is run eagerly after every event (the harness yields to quiescence). *)
+   The spawned task is run eagerly after every event (the harness yields to quiescence).
+   Timer resolution: tokio's timer wheel works in whole milliseconds since the start of the
+   runtime; a sleep whose deadline is not on a millisecond tick fires at the NEXT tick
+   (time::TimeSource::deadline_to_tick rounds up), and a freshly registered sleep is elapsed at
+   once only if that tick has been reached.  `gran` is the tick length in script time units
+   (1 when the unit is the millisecond, 1000 when it is the microsecond) and the timer
+   deadline of a call is tick_up gran (first poll + timeout). *)
 From TR Require Import Lib.Base.
 
 Inductive outcome := OOk | OErr | OPanic.
@@ -26,7 +32,7 @@ Inductive outcome := OOk | OErr | OPanic.
 (* the call future of caller i *)
 Inductive cst :=
 | Created                (* not polled yet (the future may or may not have been built) *)
-| Active (dl : Z)        (* polled, pending; deadline of its timer *)
+| Active (dl : Z)        (* polled, pending; the instant its timer fires *)
 | Done
 | Dropped.
 
@@ -44,7 +50,13 @@ Inductive ev :=
 | Advance (d : Z)
 | Complete (i : nat) (o : outcome).
 
-Record cfg := { cancel : bool; tmo : nat -> Z }.
+Record cfg := { cancel : bool; tmo : nat -> Z; gran : Z }.
+
+(* the first timer tick at or after x (ticks are the multiples of g; g <= 1: every instant) *)
+Definition tick_up (g x : Z) : Z := if g <=? 1 then x else ((x + g - 1) / g) * g.
+
+(* the instant the timer of caller i fires when its future is first polled at instant a *)
+Definition deadline (c : cfg) (i : nat) (a : Z) : Z := tick_up (gran c) (a + tmo c i).
 
 (* Calls share nothing but the configuration and the clock (each call future owns its timer,
    its oneshot channel and its inner future), so the state is the clock plus one record per
@@ -135,7 +147,7 @@ Definition lpoll (c : cfg) (i : nat) (t : Z) (l0 : loc) : loc * obs :=
   let l := set_woken l0 false in
   match lcs l with
   | Created =>
-    let dl := t + tmo c i in
+    let dl := deadline c i t in
     let l1 := mkLoc (lcs l) (linner l) (lgate l) (lwoken l) (Some t) in
     if cancel c then poll_cancel i t (set_inner l1 IRunning) dl
     else
@@ -193,9 +205,14 @@ Definition run (c : cfg) (evs : list ev) : st := fold_left (step_st c) evs init.
 
 (* ---- script interface ----
    script = [cancel; dyn; n; T; t_0 .. t_(n-1); (op a b)* ]
-     cancel: 1 = cancel_running_future(true); dyn: 0 = timeout_duration(T ms),
-     1 = timeout_fn(request i -> t_i ms); callers 0..n-1
-     op 1 = Poll a, 2 = Drop a, 3 = Advance a ms,
+     cancel: bit 0 = cancel_running_future(true) (the other bits only select, in the harness, the
+     builder call order and through which service value / clone each call is made: the limiter
+     keeps no state between calls, so the model ignores them);
+     dyn: bit 0: 0 = timeout_duration(T), 1 = timeout_fn(request i -> t_i); bit 1: the time
+     unit of the script is the microsecond (timer ticks every 1000 units) instead of the
+     millisecond; callers 0..n-1
+     op 1 = Poll a, 2 = Drop a, 3 = Advance a, 6 = Advance a (the harness moves the clock in one
+        step instead of millisecond by millisecond),
         4 = Complete a b (b: 0 ok 1 err 2 panic), 5 = Call a; events on callers >= n are skipped
    trace = per event [r; val; wake mask; inner-call states (base 4, digit j = caller j:
            0 none 1 running 2 finished 3 dropped)] *)
@@ -204,10 +221,9 @@ Definition outcome_of (z : Z) : outcome :=
 
 Definition ev_of (n : nat) (t : Z * Z * Z) : option ev :=
   let '(op, a, b) := t in
-  let i := Z.to_nat a in
-  let okc := (0 <=? a) && (a <? Z.of_nat n) in
-  if op =? 3 then Some (Advance a) else
-  if negb okc then None else
+  if (op =? 3) || (op =? 6) then Some (Advance a) else
+  if negb ((0 <=? a) && (a <? Z.of_nat n)) then None else
+  let i := Z.to_nat a in     (* only now: a < n (extraction is strict and Advance amounts are large) *)
   if op =? 1 then Some (Poll i) else
   if op =? 2 then Some (Drop i) else
   if op =? 4 then Some (Complete i (outcome_of b)) else
@@ -236,9 +252,16 @@ Fixpoint run_evs (c : cfg) (total : nat) (s : st) (evs : list ev) : list Z :=
     [r o; val o; wake_mask s' total; inner_vec s' total] ++ run_evs c total s' rest
   end.
 
+(* configuration, number of callers and event list a script stands for *)
+Definition cfg_of (sc : list Z) : cfg :=
+  let dyn := Z.odd (zn sc 1) in
+  let us := Z.odd (zn sc 1 / 2) in
+  {| cancel := Z.odd (zn sc 0);
+     tmo := fun i => Z.max 0 (if dyn then zn sc (4 + i) else zn sc 3);
+     gran := if us then 1000 else 1 |}.
+Definition callers_of (sc : list Z) : nat := Z.to_nat (zn sc 2).
+Definition events_of (sc : list Z) : list ev :=
+  evs_of (callers_of sc) (chunk3 (skipn (4 + callers_of sc) sc)).
+
 Definition run_script (sc : list Z) : list Z :=
-  let dyn := z2b (zn sc 1) in
-  let n := Z.to_nat (zn sc 2) in
-  let c := {| cancel := Z.odd (zn sc 0);   (* bit 1 of this field only picks the builder call order in the harness *)
-              tmo := fun i => Z.max 0 (if dyn then zn sc (4 + i) else zn sc 3) |} in
-  run_evs c n init (evs_of n (chunk3 (skipn (4 + n) sc))).
+  run_evs (cfg_of sc) (callers_of sc) init (events_of sc).
